@@ -58,21 +58,15 @@ func CompileExpression(node Node) CompiledExpression {
 			args[i] = CompileExpression(arg)
 		}
 		return func(data interface{}) (interface{}, error) {
-			if n.Name == "DOES_NOT_EXIST" {
+			if n.Name == "EXISTS" || n.Name == "DOES_NOT_EXIST" {
 				if len(n.Arguments) != 1 {
-					return nil, fmt.Errorf("DOES_NOT_EXIST function requires exactly one argument")
+					return nil, fmt.Errorf("%s function requires exactly one argument", n.Name)
 				}
-
-				identifier, ok := n.Arguments[0].(*IdentifierNode)
-				if !ok {
-					return nil, fmt.Errorf("DOES_NOT_EXIST function argument must be an identifier but got %T", n.Arguments[0])
+				_, present := resolvePath(n.Arguments[0], data)
+				if n.Name == "EXISTS" {
+					return present, nil
 				}
-				dataMap, ok := data.(map[string]interface{})
-				if !ok {
-					return false, nil // If data is not a map, the key doesn't exist
-				}
-				_, exists := dataMap[identifier.Name]
-				return !exists, nil
+				return !present, nil
 			}
 			return evaluateFunction(n.Name, args, data)
 		}
@@ -319,6 +313,67 @@ func compareValues(operator string, left, right interface{}) (bool, error) {
 		}
 	}
 	return false, fmt.Errorf("unsupported comparison: %v %s %v", left, operator, right)
+}
+
+// resolvePath returns the value found at the path denoted by node (an identifier,
+// a '.' field access or a '[]' index) and whether that path is present in data.
+// A present field whose value is null counts as present.
+func resolvePath(node Node, data interface{}) (interface{}, bool) {
+	switch n := node.(type) {
+	case *IdentifierNode:
+		m, ok := data.(map[string]interface{})
+		if !ok {
+			return nil, false
+		}
+		v, exists := m[n.Name]
+		return v, exists
+	case *ExpressionNode:
+		switch n.Operator {
+		case ".":
+			left, ok := resolvePath(n.Left, data)
+			if !ok {
+				return nil, false
+			}
+			field, isIdent := n.Right.(*IdentifierNode)
+			if !isIdent {
+				return nil, false
+			}
+			switch lv := left.(type) {
+			case map[string]interface{}:
+				v, exists := lv[field.Name]
+				return v, exists
+			case []interface{}:
+				if field.Name == "length" {
+					return float64(len(lv)), true
+				}
+			}
+			return nil, false
+		case "[]":
+			left, ok := resolvePath(n.Left, data)
+			if !ok {
+				return nil, false
+			}
+			arr, isArr := left.([]interface{})
+			if !isArr {
+				return nil, false
+			}
+			idx, err := CompileExpression(n.Right)(data)
+			if err != nil {
+				return nil, false
+			}
+			f, err := toFloat64(idx)
+			if err != nil {
+				return nil, false
+			}
+			i := int(math.Round(f))
+			if i < 0 || i >= len(arr) {
+				return nil, false
+			}
+			return arr[i], true
+		}
+	}
+	v, err := CompileExpression(node)(data)
+	return v, err == nil
 }
 
 func evaluateFunction(name string, args []CompiledExpression, data interface{}) (interface{}, error) {
